@@ -27,10 +27,12 @@ theorem add_spec' (q : QT α) (p : Ptr α) (h : QInv q) :
     Spec q.bound (contents q.root) (.add p) (.flag (add q p).2) (contents (add q p).1.root) ∧
     QInv (add q p).1 ∧ (add q p).1.bound = q.bound ∧ ((add q p).2 = false → (add q p).1 = q) := by
   unfold add
+  have hbox := contains_eq_inBox q.bound p.p
   cases hc : q.bound.contains p.p with
-  | false => simp [Spec, hc, h]
+  | false => rw [hc] at hbox; simp [Spec, ← hbox, h]
   | true =>
-    simp only [Bool.not_true, Bool.false_eq_true, if_false, Spec, hc, if_true, true_and]
+    rw [hc] at hbox
+    simp only [Bool.not_true, Bool.false_eq_true, if_false, Spec, ← hbox, if_true, true_and]
     refine ⟨contents_ins _ _ _, ?_, by simp⟩
     exact Inv_ins _ _ _ h (contains_inCell _ _ hc)
 
